@@ -98,6 +98,8 @@ def classify(rej, scratch=None):
         if stalls or "writer" in what or "timed out" in what or "blocked" in what:
             return {"C08"}
         return {"C04"}
+    if ev == "wret":
+        return {"C06"}   # the only constraint on a writer's return: no notification offered twice to one client
     if ev in ("dupcheck", "offer"):
         return {"C06", "C08"} if ev == "dupcheck" else {"C06"}
     return set()
